@@ -3,6 +3,7 @@ import PyYetiVerif.Lemmas.NasFloatRat
 import PyYetiVerif.Lemmas.NasCards
 import PyYetiVerif.Lemmas.NasCardsTrip
 import PyYetiVerif.Lemmas.NasCardsLarge
+import PyYetiVerif.Lemmas.NasCardsComma
 /-!
 # C12 — Nastran number fields: exact width, best precision; cards round-trip
 
@@ -360,6 +361,51 @@ theorem card_roundtrip_large (name : Str) (toks : List Tok) (keep : Bool) (hname
           dtb (toks.map fun t => cardVal (enc 16 formatDouble16 t))) :=
   ⟨fun hf => wtcard16_roundtrip formatFloat16 name toks keep hname hstar hf,
    fun hf => wtcard16_roundtrip formatDouble16 name toks keep hname hstar hf⟩
+
+/-- **`card_roundtrip`, free-field (comma) form** (`_rdcomma`): for a card written as
+`NAME,f1,…,f8` with continuation lines `+,f9,…` or `,f9,…` (at most 8 tokens per line; tokens
+without comma, `$`, newline or white space at their right end; **lines of any length** — the
+reader does not cut a free-field line at column 72 or anywhere else), the generic reader finds
+exactly one card: the name (when kept) followed by the values of the tokens, every continued line
+padded with blanks to 8 fields. -/
+theorem card_roundtrip_comma (name : Str) (keep : Bool) (hname : NameOK name) (c0 : List Str)
+    (hc0ne : c0 ≠ []) (hc0len : c0.length ≤ 8) (hc0 : ∀ t ∈ c0, TokOK t)
+    (conts : List (Str × List Str))
+    (hconts : ∀ p ∈ conts, ContOK p.1 p.2 ∧ p.2.length ≤ 8 ∧ ∀ t ∈ p.2, TokOK t) :
+    rdcards name keep (commaText name c0 conts) =
+      [(if keep then [NasVal.str name] else []) ++
+        glue 8 ((c0 :: conts.map Prod.snd).map (List.map cardVal))] :=
+  comma_rdcards name keep hname c0 hc0ne hc0len hc0 conts hconts
+
+/-- **fixed-field and free-field forms read identically**: whenever, line by line, the values of
+the free-field tokens `ws` and of the fixed fields `vs` agree up to trailing blanks (a continued
+free-field line may omit its trailing blank fields), the free-field reading `glue 8 ws`
+(`card_roundtrip_comma`) and the fixed-field reading `glue 8 (vs.map dtb)` (`wtcard8_rdcards`) are
+equal up to trailing blanks, and both are the fields themselves. -/
+theorem card_fixed_comma_agree (ws vs : List (List NasVal)) (hw : ∀ w ∈ ws, w.length ≤ 8)
+    (hsame : ws.map dtb = vs.map dtb) (hok : GlueOK 8 vs) :
+    dtb (glue 8 ws) = dtb (glue 8 (vs.map dtb)) ∧ dtb (glue 8 ws) = dtb vs.flatten :=
+  fixed_comma_agree ws vs hw hsame hok
+
+/-- non-vacuity: a free-field card whose first line is 78 characters long, continued by a line
+that starts with the comma. -/
+example : ∃ (name : Str) (c0 : List Str) (conts : List (Str × List Str)), NameOK name ∧ c0 ≠ [] ∧
+    c0.length ≤ 8 ∧ (∀ t ∈ c0, TokOK t) ∧
+    (∀ p ∈ conts, ContOK p.1 p.2 ∧ p.2.length ≤ 8 ∧ ∀ t ∈ p.2, TokOK t) ∧
+    (commaLine name c0).length = 78 := by
+  refine ⟨"CORD2R".toList, List.replicate 8 "-1.23456".toList, [([], ["7".toList])],
+    ⟨⟨'C', "ORD2R".toList, rfl, by decide⟩, by decide, by decide⟩, by simp, by simp, ?_, ?_, by decide⟩
+  · intro t ht
+    rw [List.eq_of_mem_replicate ht]
+    exact ⟨by decide, by decide⟩
+  · intro p hp
+    simp only [List.mem_cons, List.not_mem_nil, or_false] at hp
+    subst hp
+    refine ⟨Or.inr ⟨rfl, by simp⟩, by simp, ?_⟩
+    intro t ht
+    simp only [List.mem_cons, List.not_mem_nil, or_false] at ht
+    subst ht
+    exact ⟨by decide, by decide⟩
 
 /-- non-vacuity: a card of 19 fields (three physical lines) with blanks spanning a line end. -/
 example : ∃ (name : Str) (toks : List Tok), NameOK name ∧ (∀ c ∈ name, c ≠ '*') ∧ toks.length = 19 ∧
